@@ -537,3 +537,87 @@ chic_hash = Contract(
     assumptions=['Fragment.is_valid an arbitrary verdict; identify_site has set strand / cut_site_strand / site_location (C09)'],
 )
 UNITS.append(chic_hash)
+
+
+# ------------------------------------------------------------------------------ NlaIIIFragment.__init__: the bucket key
+def nla_hash_self(eng, name):
+    return Obj('NlaIIIFragment', {'use_allele_tag': False, 'strand': named(BOOL, 'strand'), 'cut_site_strand': named(BOOL, 'cut_site_strand'),
+                                  'site_location': (named(STR, 'site_contig'), named(INT, 'site_position')), 'sample': named(STR, 'sample'),
+                                  'match_hash': 'unset', 'reads': []}, info=eng.loader.classref(FN, 'NlaIIIFragment'))
+
+
+def nla_hash_setup(eng):
+    eng.spec_env['VALID'] = named(BOOL, 'fragment_is_valid')
+    for q in ('singlecellmultiomics.fragment.fragment.Fragment.is_valid', 'singlecellmultiomics.fragment.nlaIII.NlaIIIFragment.is_valid'):
+        eng.loader.call_hooks[q] = lambda e, f, a, k, n: e.spec_env['VALID']
+
+
+nla_hash = Contract(
+    PROP, FN + '::NlaIIIFragment.__init__', name='NlaIIIFragment.__init__[bucket key]',
+    block=hash_block,
+    params={'self': nla_hash_self},
+    setup=nla_hash_setup,
+    ensures={
+        'invalid_fragments_have_no_key': 'implies(not VALID, self.match_hash is None)',
+        # same key <=> same strand, site strand, contig, site position and cell
+        'key_is_strand_site_and_cell': 'implies(VALID, self.match_hash == '
+                                       '(self.strand, self.cut_site_strand, self.site_location[0], self.site_location[1], self.sample))',
+    },
+    raises={},
+    assumptions=['use_allele_tag off; Fragment.is_valid an arbitrary verdict; identify_site has set strand / site (C09)'],
+)
+UNITS.append(nla_hash)
+
+
+# ------------------------------------------------------------------------------ NlaIIIMolecule / CHICMolecule._add_fragment: the molecule's site
+FMN = 'singlecellmultiomics/molecule/nlaIII.py'
+FMC = 'singlecellmultiomics/molecule/chic.py'
+
+
+def site_setup(eng):
+    eng.ghost.clear()
+    eng.ghost['base_calls'] = []
+    eng.spec_env['GHOST'] = eng.ghost
+    eng.loader.call_hooks['singlecellmultiomics.molecule.molecule.Molecule._add_fragment'] = \
+        lambda e, f, a, k, n: e.ghost['base_calls'].append(a[-1])
+
+
+def site_molecule(cls, relpath, has_site):
+    def mk(eng, name):
+        site = [named(STR, 'mol_contig'), named(INT, 'mol_site')] if has_site else None
+        eng.spec_env['SITE0'] = list(site) if site else None
+        return Obj(cls, {'site_location': site, 'assignment_radius': named(INT, 'old_radius')}, info=eng.loader.classref(relpath, cls))
+    return mk
+
+
+def site_fragment(has_site):
+    def mk(eng, name):
+        o = Obj('SiteFrag', {'site_location': (named(STR, 'frag_contig'), named(INT, 'frag_site')) if has_site else None,
+                             'strand': named(BOOL, 'frag_strand'), 'assignment_radius': named(INT, 'frag_radius')})
+        o.vc_immutable = True
+        return o
+    return mk
+
+
+def mol_site_unit(cls, relpath):
+    return Contract(
+        PROP, relpath + '::%s._add_fragment' % cls, name='%s._add_fragment[molecule site]' % cls,
+        params={'self': site_molecule(cls, relpath, True), 'fragment': site_fragment(True)},
+        cases=[{}, {'self': site_molecule(cls, relpath, False)}, {'fragment': site_fragment(False)}],
+        setup=site_setup,
+        ensures={
+            'fragment_is_added_once_through_the_base_class': 'GHOST["base_calls"] == [fragment]',
+            'first_site_is_taken_over': 'implies(SITE0 is None and fragment.site_location is not None, '
+                                        'self.site_location[0] == fragment.site_location[0] and self.site_location[1] == fragment.site_location[1])',
+            # the molecule's site is the extreme one in the direction of its strand
+            'later_sites_extend_to_the_extreme':
+                'implies(SITE0 is not None and fragment.site_location is not None, self.site_location[0] == SITE0[0] and '
+                'self.site_location[1] == (max(SITE0[1], fragment.site_location[1]) if fragment.strand else min(SITE0[1], fragment.site_location[1])))',
+            'a_fragment_without_site_changes_nothing': 'implies(fragment.site_location is None, self.site_location == SITE0)',
+            'radius_follows_the_fragment': 'self.assignment_radius == fragment.assignment_radius',
+        },
+        raises={},
+    )
+
+
+UNITS += [mol_site_unit('NlaIIIMolecule', FMN), mol_site_unit('CHICMolecule', FMC)]
